@@ -17,7 +17,7 @@ import sys
 import time
 
 ROOT = os.path.dirname(os.path.dirname(os.path.abspath(__file__)))
-WT = "/tmp/seedval"
+WT = os.environ.get("SEEDVAL_WT", "/tmp/seedval")
 PY = "/venv/bin/python"
 
 
@@ -139,7 +139,11 @@ def cmd_run(ids, tier, all_checks):
                    "inconclusive": [l for l in rr.stdout.splitlines() if l.startswith("INCONCLUSIVE")][:1]}
             meta["detection"]["%s/%s" % (c, tier)] = res
             print("%s  %s/%s  rc=%d  %d keys %s" % (sid, c, tier, rr.returncode, len(keys), keys[:2]))
-        json.dump(meta, open(os.path.join(d, "meta.json"), "w"), indent=1)
+        if os.environ.get("SEEDED_MATRIX_OUT"):
+            with open(os.environ["SEEDED_MATRIX_OUT"], "a") as f:
+                f.write(json.dumps({"id": sid, "detection": meta["detection"]}) + "\n")
+        else:
+            json.dump(meta, open(os.path.join(d, "meta.json"), "w"), indent=1)
     ensure_wt()
 
 
